@@ -92,6 +92,7 @@ func (e *Engine) verifyFunction(name string, spec *FuncSpec) (fc *FnCtx, err err
 			rv = &TupleVal{Elems: res}
 		}
 		topEnv.setResults(rv)
+		fc.applyEffects(out, entry, spec, topEnv)
 		for i, en := range spec.Ensures {
 			t := fc.evalClauseEnv(out, entry, en, topEnv)
 			fc.obligeClause(out, "ensures", clauseLabel(en, i), t, en, fn.Pos())
@@ -124,6 +125,26 @@ func (e *Engine) verifyFunction(name string, spec *FuncSpec) (fc *FnCtx, err err
 			}
 			frameGoals = append(frameGoals, T(SBool, fmt.Sprintf("(forall ((r Int)) (=> (and (<= 0 r) (<= r %s)) (= (select %s r) (select %s r))))", oldTop.S, cur.S, init.S)))
 		}
+		// ghost variables not declared in modifies keep their value
+		var gnames []string
+		for g := range e.ghosts {
+			gnames = append(gnames, g)
+		}
+		sort.Strings(gnames)
+		for _, g := range gnames {
+			if declared["ghost:"+g] {
+				continue
+			}
+			cur, ok := out.cells[cellKey{0, g}].(Term)
+			if !ok {
+				continue
+			}
+			init := fc.decls.constant("ghost_"+sanitize(g)+"_0", specSort(e.ghosts[g].Type))
+			if cur.S != init.S {
+				frameGoals = append(frameGoals, tEq(cur, init))
+				ws = append(ws, "ghost:"+g)
+			}
+		}
 		if len(frameGoals) > 0 {
 			ob := fc.oblige(out, "frame", "modifies", tAnd(frameGoals...), fn.Pos(), nil, "only declared locations change on pre-existing objects: "+strings.Join(ws, ","))
 			_ = ob
@@ -144,6 +165,15 @@ func (e *Engine) verifyFunction(name string, spec *FuncSpec) (fc *FnCtx, err err
 	}
 	// per-return covers
 	for i, r := range fr.rets {
+		dead := false
+		for _, u := range spec.Unreachable {
+			if u == fmt.Sprintf("return%d", i) {
+				dead = true
+			}
+		}
+		if dead {
+			continue // declared dead under the contract assumptions (defensive code)
+		}
 		cov := fc.oblige(r.st, "cover", fmt.Sprintf("return%d", i), tFalse, fn.Pos(), nil, "return site reachable")
 		cov.Cover = true
 	}
